@@ -90,6 +90,9 @@ def check_add_trace(res, events, algo, acting_kind):
         k = e["k"]
         if k == "sample":
             # every transition drawn for learning is one the environment produced
+            if e.get("admissible") is False:
+                res.see("samples_without_admissible_start")
+                continue
             b = e["batch"]
             obs = np.asarray(b["observation"], np.float64)
             act = np.asarray(b["action"], np.float64)
